@@ -31,8 +31,9 @@ func (k Keeper) DivvyingTips(ctx context.Context, reporterAddr sdk.AccAddress, r
 		return err
 	}
 
-	// selector's commission = reporter's commission rate * reward
-	commission := reward.Mul(reporter.CommissionRate)
+	// selector's commission = reporter's commission rate * reward; the rate is a percentage (CreateReporter accepts
+	// rates up to 100, "a 100 percent commission rate")
+	commission := reward.Mul(reporter.CommissionRate).Quo(math.LegacyNewDec(100))
 	// Calculate net reward
 	netReward := reward.Sub(commission)
 
